@@ -479,7 +479,8 @@ impl FieldParser {
     ) -> IResult<&[u8], Vec<BTreeMap<usize, V9FieldPair>>> {
         let record_count = input
             .len()
-            .saturating_div(usize::from(template.get_total_size()));
+            .checked_div(usize::from(template.get_total_size()))
+            .unwrap_or(0);
 
         let (remaining, fields) = (0..record_count).fold(
             (input, Vec::new()), // Initial accumulator: (fields, remaining)
